@@ -694,10 +694,18 @@ impl World {
                     }
                 }
                 // items counted by the retained snapshot stay readable as well
-                if problem.is_none() && frozen.item_count > 0 && frozen.matches.is_empty() {
-                    let readable = (0..frozen.item_count + 2).filter(|&i| snap.get_item(i).is_some()).count() as u32;
-                    if readable == 0 {
-                        problem = Some(format!("restart(false): the retained snapshot counts {} items but none of them is readable any more", frozen.item_count));
+                // (the counted items can sit at any index of the old stream: unpublished entries of parked writers lie in
+                // between, so all indices that were ever handed out are looked at)
+                let handed_out = frozen.stream.and_then(|st| self.invoked.lock().unwrap().get(&st).copied());
+                if let (true, Some(handed_out)) = (problem.is_none() && frozen.item_count > 0, handed_out) {
+                    if handed_out <= 20_000 {
+                        let readable = (0..handed_out).filter(|&i| snap.get_item(i).is_some()).count() as u32;
+                        if readable < frozen.item_count {
+                            problem = Some(format!(
+                                "restart(false): the retained snapshot counts {} items but only {readable} of the {handed_out} indices of its stream are readable",
+                                frozen.item_count
+                            ));
+                        }
                     }
                 }
             }
